@@ -17,7 +17,7 @@ CHUNK = 50
 PROBES = ['multi_chunk', 'empty_chunk', 'cut_inside_window', 'cut_inside_lookup', 'decoy_tag_in_stackshot', 'gap_before_event_tag',
           'header_plist_unaligned', 'two_kext_blocks', 'two_dyld_blocks', 'two_code_blocks', 'two_log_blocks', 'unpadded_last_block',
           'log_extends_tables', 'log_without_pid', 'strings_block_before_logs', 'xml_plists', 'no_blocks', 'unknown_block',
-          'log_with_tai']
+          'log_with_tai', 'cli_run']
 RULE = ('one run = one simulated v3 dump (1..3 SimKernel threads, 0..60 records in 1..5 chunks, thread map with duplicate keys, '
         'seeded metadata/log blocks) parsed by the real KdBufParser and by PyKdebugParser.kevents/os_log_events; non-trivial = '
         '>= 2 event chunks or >= 2 blocks of one list-valued kind or >= 1 log that extends the tables; distinct = distinct '
@@ -47,6 +47,7 @@ def generate(rng, index, tier):
         w['chunks'].append(rng.pick(w['chunks']))                # an empty chunk
         w['chunks'].sort()
     scn['api'] = rng.pick(['kd', 'kd', 'pk'])
+    scn['cli'] = index % 16 == 0
     return scn
 
 
@@ -221,6 +222,35 @@ def execute(scn):
                 bad('attribute', 'trace_codes', 'got %r want %r' % (kd.trace_codes, wantc))
             if kd.v3_header is None or dict(kd.v3_header.cpu_info) != (w.get('cpu_info') or {}):
                 bad('attribute', 'v3_header', 'cpu_info %r want %r' % (getattr(kd.v3_header, 'cpu_info', None), w.get('cpu_info')))
+    # a share of runs also through the command-line interface (processes / kexts / images print the attributes as JSON)
+    if scn.get('cli') and exc is None and not viols:
+        import json
+        import os
+        import tempfile
+        from click.testing import CliRunner
+        from pykdebugparser.__main__ import cli
+        bump('probe:cli_run')
+        with tempfile.TemporaryDirectory() as td:
+            path = os.path.join(td, 'dump')
+            with open(path, 'wb') as f:
+                f.write(data)
+            for cmd, kind in (('processes', 'processes'), ('images', 'images'), ('kexts', 'kexts')):
+                res = CliRunner().invoke(cli, [cmd, path])
+                pls = [worlds.unjson(b['payload']) for b in blocks if b['kind'] == kind]
+                if kind == 'kexts':
+                    wantv = {'Binaries': [x for pl in pls for x in pl['Binaries']]}
+                else:
+                    wantv = pls[-1] if pls else {}
+                try:
+                    gotv = json.loads(res.output)
+                except Exception:
+                    gotv = ('unparsable', res.output[:100], repr(res.exception))
+                if gotv != wantv:
+                    bad('cli-attribute', cmd, 'CLI %s printed %r, the dump holds %r' % (cmd, gotv, wantv))
+            res = CliRunner().invoke(cli, ['kevents', path, '--no-show-tid'])
+            nlines = len([l for l in res.output.split('\n') if l])
+            if nlines != len(rb):
+                bad('cli-kevents-lines', 'count', 'CLI kevents printed %d lines for %d records' % (nlines, len(rb)))
     hist.append([len(got), len(logs), type(exc).__name__ if exc else None, sorted(tp.items()), sorted((k, v) for k, v in pn.items())])
     nontrivial = nchunks >= 2 or any(kinds.count(k) >= 2 for k in ('kexts', 'dyld', 'codes', 'logs')) or _tables_model(w, True)[2] > 0
     return {'violations': viols[:4], 'digest': digest_of(scn, hist), 'stats': stats, 'nontrivial': bool(nontrivial),
